@@ -5,6 +5,7 @@ package main
 
 import (
 	"fmt"
+	"os"
 	"runtime/debug"
 	"sort"
 	"strings"
@@ -93,8 +94,17 @@ func (e *Exec) modelVal(t *Term) uint64 {
 }
 
 func (e *Exec) query(extra *Term, label string) (string, Model) {
+	if e.obligation {
+		e.solver.SetTimeout(e.cfg.TimeoutMs)
+	} else {
+		e.solver.SetTimeout(e.cfg.FeasTimeoutMs)
+	}
 	res, m := e.solver.Check(e.pc, extra, e.symvars, label)
-	if res == "unknown" && e.cfg.OneShotMs > 0 {
+	if res == "unknown" && e.cfg.DumpUnknown != "" {
+		e.stats.Regions += 0
+		DumpQuery(fmt.Sprintf("%s-%d-%d.smt2", e.cfg.DumpUnknown, os.Getpid(), e.solver.Stats.Unknown), e.pc, extra)
+	}
+	if res == "unknown" && e.cfg.OneShotMs > 0 && e.obligation {
 		// fall-back: fresh non-incremental solver(s)
 		for _, k := range e.cfg.FallbackSolvers {
 			r2, m2, _ := OneShot(k, e.cfg.OneShotMs, e.pc, extra, e.symvars)
@@ -201,7 +211,10 @@ func (e *Exec) check(ok *Term, msg string) {
 	if ok == e.tc.True {
 		return
 	}
-	if !e.branch(ok) {
+	e.obligation = true
+	r := e.branch(ok)
+	e.obligation = false
+	if !r {
 		e.goPanicRuntime(msg)
 	}
 }
@@ -210,7 +223,10 @@ func (e *Exec) checkMsg(ok *Term, msg func() string) {
 	if ok == e.tc.True {
 		return
 	}
-	if !e.branch(ok) {
+	e.obligation = true
+	r := e.branch(ok)
+	e.obligation = false
+	if !r {
 		e.goPanicRuntime(msg())
 	}
 }
@@ -385,6 +401,7 @@ func (e *Exec) resetPath() {
 	e.ufCount = 0
 	e.nativeState = map[string]interface{}{}
 	e.md5Calls = nil
+	e.arrayMode = false
 	e.obs = nil
 	e.floatArgs = nil
 }
@@ -528,7 +545,10 @@ func (e *Exec) symIntercept(name string, args []Value) (Value, bool) {
 		label := e.goString(args[1])
 		e.res.Extra = nil
 		e.nAsserts++
-		if !e.branch(c) {
+		e.obligation = true
+		holds := e.branch(c)
+		e.obligation = false
+		if !holds {
 			e.violation("assert", label, "assertion failed: "+label)
 		}
 		return nil, true
@@ -552,6 +572,13 @@ func (e *Exec) symIntercept(name string, args []Value) (Value, bool) {
 		return nil, true
 	case "symSetenv":
 		e.env[e.goString(args[0])] = e.goString(args[1])
+		return nil, true
+	case "symUF16":
+		name := e.goString(args[0])
+		e.note("uninterpreted function " + name)
+		return tc.UF("uf_"+name, BV(16), e.intTerm(args[1]), e.intTerm(args[2])), true
+	case "symArrayMode":
+		e.arrayMode = e.boolTerm(args[0]) == tc.True
 		return nil, true
 	case "symParam":
 		name := e.goString(args[0])
